@@ -151,6 +151,9 @@ def parse_obs(text):
     elif head.startswith("r path"):
         r["kind"] = "path"
         r["edges"] = [(int(a), int(b), int(c)) for a, b, c in EDGE.findall(head.split(" nodes")[0])]
+        acc = head.split(" acc ", 1)[1].split() if " acc " in head else []
+        r["first_node"] = int(acc[2]) if len(acc) > 3 and re.fullmatch(r"-?\d+", acc[2]) else None
+        r["last_node"] = int(acc[3]) if len(acc) > 3 and re.fullmatch(r"-?\d+", acc[3]) else None
         tail = head.split(" nodes")[1].split(" acc ")[0]
         toks = tail.split()
         li = toks.index("len")
@@ -370,6 +373,10 @@ def check_srch(g, step, text, small=True):
                     exp_nodes = [kr] + [b for (_, b, _) in o["edges"]]
                     if o["nodes"] != exp_nodes or o["len"] != len(o["edges"]) + 1:
                         return "path nodes/len disagree with its edges"
+                    if o.get("first_node") is not None and o["first_node"] != kr:
+                        return "Path::first_node() is %d, but the path starts at the root %d" % (o["first_node"], kr)
+                    if o.get("last_node") is not None and o["last_node"] != target:
+                        return "Path::last_node() is %d, but the path ends at the target %d" % (o["last_node"], target)
                     if algo == "bfs" and len(o["edges"]) != bfs_dist(g, root, d, m)[tid]:
                         return "breadth-first path has %d edges, a path with %d exists" % (len(o["edges"]), bfs_dist(g, root, d, m)[tid])
                     if algo == "dfs" and len(set(exp_nodes)) != len(exp_nodes):
@@ -384,6 +391,8 @@ def check_srch(g, step, text, small=True):
                 return msg
             if not o["edges"]:
                 return "empty cycle"
+            if o.get("first_node") is not None and o["first_node"] != kr:
+                return "Path::first_node() of the cycle is %d, but it starts at the root %d" % (o["first_node"], kr)
             if g.cls == "D":
                 if len(set(o["edges"])) != len(o["edges"]):
                     return "cycle uses an edge twice"
